@@ -100,7 +100,7 @@ def make_cfg(rng, force=None):
     center = bool(rng.random() < 0.8)
     standardize = bool(rng.random() < 0.35)
     use_coslat = struct == "da2" and bool(rng.random() < 0.5)
-    scale = float(10.0 ** rng.integers(-3, 4)) if rng.random() < 0.3 else 1.0
+    scale = float(10.0 ** rng.integers(-7, 5)) if rng.random() < 0.3 else 1.0
     # a few dominant directions plus noise: spectral gaps in most resamples
     r = min(n - 1, p)
     base = rng.standard_normal((n, r)) * (2.0 ** -np.arange(r)) * 2.0
@@ -437,6 +437,11 @@ def run(ctx):
         cfg = make_cfg(rng)
         if i % 9 == 8:
             cfg["B"] = int(rng.choice([20, 50])) if ctx.quick else int(rng.integers(7, 51))
+        if i % 7 == 3:
+            # a field in small physical units, not standardised (a flux in kg m-2 s-1): nothing in the property depends on the units
+            new = float(10.0 ** rng.integers(-8, -4))
+            cfg["X"] = (np.asarray(cfg["X"]) * (new / cfg["scale"])).tolist()
+            cfg["scale"], cfg["standardize"] = new, False
         try:
             data, m = fit_model(cfg)
             b = run_boot(m, cfg["B"], cfg["seed"])
